@@ -252,6 +252,17 @@ class DAG:
             v = self.uf_witness[key]
         return self._mk('uf', (name,) + xs, v)
 
+    def uf_raw(self, name, *xs):
+        """uninterpreted application without the exp/log rewrites (for axiom instances)"""
+        xs = tuple(xs)
+        f = self.uf_eval.get(name)
+        avals = tuple(self.vals[x] for x in xs)
+        try:
+            v = f(*avals)
+        except (ValueError, OverflowError):
+            v = math.nan
+        return self._mk('uf', (name,) + xs, v)
+
     def exp(self, a):
         return self.uf('exp', a)
 
